@@ -41,13 +41,13 @@ var c04Check = &impCheck{
 		}
 		return len(a.Specs) > 0 && len(w.Log) > len(w.Refs)+1
 	},
-	sys: newRawSystem("NewFilePath", "l/loc", []string{"a/f", "b/f", "fmt", "l/loc"}, map[string]string{"a/f": "f", "b/f": "f"}, []string{"."},
+	sys: newRawSystem("NewFilePath", "l/loc", []string{"a/f", "b/f", "fmt", "l/loc"}, map[string]string{"a/f": "f", "b/f": "f"}, []string{".", "_"},
 		[]int{0, imp.WrapperIndex("dictkey-nullvalue"), imp.WrapperIndex("dictvalue-nullkey"), imp.WrapperIndex("dictvalue")}, true, "pkg"),
 	bfsDepth: [2]int{4, 5},
 	dev:      [2]int{3, 4},
 	fams: []*family{
 		{name: "wrappers", ctors: []string{"NewFile"}, paths: []string{"a/f", "b/f", "fmt", "x/dot"}, names: c04Names(),
-			aliases: []string{"f", "."}, prefixes: []string{"pkg"}, maxRefs: 3, freeRefs: 2, wrappers: allWrappers, anon: true, extra: true, bigHints: c04BigHints},
+			aliases: []string{"f", ".", "_"}, prefixes: []string{"pkg"}, maxRefs: 3, freeRefs: 2, wrappers: allWrappers, anon: true, extra: true, bigHints: c04BigHints},
 		{name: "local", ctors: []string{"NewFilePath", "NewFilePathName"}, local: "a.b/c", paths: []string{"a.b/c", "a.b/c/x", "fmt"}, names: map[string]string{"a.b/c/x": "x"},
 			aliases: []string{"."}, prefixes: []string{"pkg"}, maxRefs: 3, freeRefs: 3, wrappers: allWrappers, anon: true, extra: true},
 		{name: "cgo", ctors: []string{"NewFile"}, paths: []string{"C", "fmt", "a/c"}, names: map[string]string{"a/c": "c"},
@@ -59,7 +59,7 @@ var c04Check = &impCheck{
 func init() {
 	register(&Check{ID: "C04", Level: "model_checking", Run: func(r *ev.Recorder) {
 		r.Rule = "(1) explicit-state BFS over one real File (constructor NewFilePath): references to 4 paths (one of them the local path) in 4 positions (plain, Dict key whose value is Null(), Dict value whose key is Null(), Dict value), " +
-			"ImportName, ImportAlias(p, \".\"), Anon, PackagePrefix, in every order up to the depth bound, de-duplicated on a reflection dump of the File. " +
+			"ImportName, ImportAlias(p, \".\"), ImportAlias(p, \"_\"), Anon, PackagePrefix, in every order up to the depth bound, de-duplicated on a reflection dump of the File. " +
 			"(2) canonical pre-render histories for 3 path families (all 14 reference positions incl. three that must render nothing; hint tables of 12 mostly unused paths; anonymous imports; local path; cgo with 0-2 preamble blocks) with a bounded number of non-default settings. " +
 			"Oracle on the parsed output: the multiset of import specs equals {paths of rendered references (except the local path)} + {anonymous imports} (+ \"C\" when a preamble exists), each exactly once; cross-checked by go/types (no 'imported and not used', no undefined). " +
 			"distinct_nontrivial = distinct outputs of files that contain a reference or hint that must not produce an import"
